@@ -269,6 +269,11 @@ impl PolyCase {
     /// property requires (the default tolerance 1e-10 would make it negligible)
     fn small_scale_tolerance(&self) -> Option<f64> {
         let lead = self.asc.last().map(|c| c.norm()).unwrap_or(1.0);
+        // one polynomial in eight carries the zero tolerance 0.0 ("only an exact zero is negligible"; the
+        // deflation divides with it: D41). Chosen from the data so that the other draws stay as they were.
+        if (self.asc[0].re.to_bits() >> 9) % 8 == 0 {
+            return Some(0.0);
+        }
         if lead < 1e-8 {
             Some(lead * 1e-12)
         } else {
